@@ -150,6 +150,27 @@ def _ti_lt(ctx: Ctx, c: Collector) -> None:
     C_LT, C_GT, C_EQ = ("cmp", "<", sc, oc), ("cmp", "<", oc, sc), T.canon_cmp("==", sc, oc)
     L1 = ("cmp", "<", iv, sc) if iv is not None else None      # tier i is an "add" tier of self
     L2 = ("cmp", "<", iv, oc) if iv is not None else None      # tier i is an "add" tier of other
+    # a shortcut in front of the scan for delays with identical tiers: two such delays are ordered by their cutoffs (the one that
+    # stops adding first arrives earlier or at the same time), so the answer is `self.cutoff < other.cutoff`
+    TEQ = T.canon_cmp("==", ("attr", me, "tiers"), ("attr", other, "tiers"))
+    first_loop_idx = in_loop[0].idx
+    for r in [r for r in s.returns if not r.iters and r.idx < first_loop_idx]:
+        own_g = [T.guard_term(g) for g in r.guards if T.contains((g,), ("attr", me, "tiers")) or T.contains((g,), ("attr", other, "tiers"))]
+        if own_g and all(T.canon_cmp(*x[1:]) == TEQ if (x[0] == "cmp" and x[1] in ("==", "!=")) else False for x in own_g) and all(x[1] == "==" for x in own_g):
+            bad_sc = []
+            for label, asg in (("self.cutoff < other.cutoff", {C_LT: True, C_GT: False, C_EQ: False}), ("other.cutoff < self.cutoff", {C_LT: False, C_GT: True, C_EQ: False}),
+                               ("equal cutoffs", {C_LT: False, C_GT: False, C_EQ: True})):
+                try:
+                    got = boolfn.eval_leaves(r.term, asg)
+                except boolfn.NotBoolean:
+                    got = None
+                want = asg[C_LT]
+                if got is None or got != want:
+                    bad_sc.append(f"{label}: answers {got if got is not None else T.show(r.term)[:30]} instead of {want}")
+            if bad_sc:
+                c.bad("ti-lt", qn, "lexicographic scan", "a shortcut for identical tiers bypasses the tie-break by the cutoffs (" + "; ".join(bad_sc) + "): two delays with equal tiers and "
+                      "different cutoffs are then neither <, nor ==, so min / update_min depend on the order of their arguments", ctx.loc(fi, r))
+                return
     # guards outside the loop (length assertions) are not part of the per-tier decision
     tail = [r for r in s.returns if not r.iters]
     pre = list(in_loop[0].guards)
